@@ -106,6 +106,9 @@ func reference(c seqCase) verdict {
 		if c.Layer == "socket" && c.Path != 0 && i < len(c.Via) && c.Via[i] {
 			continue
 		}
+		if c.Layer == "socket" && c.Path == 2 && len(d) == 0 {
+			continue // an empty write puts nothing on a TCP stream: there is no such 'datagram'
+		}
 		cl := classify(d, c.Call)
 		if c.Path == 0 && (cl == "short" || cl == "long" || cl == "other-serial" || cl == "serial-0") {
 			continue // ignored on the broadcast path: keep waiting
@@ -224,9 +227,14 @@ func runSocket(c seqCase, scale int) *rp.Fail {
 	var tcp *farm.TCP
 	if c.Path == 2 {
 		tcp, err = f.TCP(ip, 0, farm.ScriptTCP(func(r farm.Received) []farm.Action {
+			// a 'datagram' on TCP is one write of the peer: the first one decides; the later ones follow after a pause
+			// each, so that they cannot be coalesced with it (the pause grows with the re-run scale)
 			a := actions(r)
-			if len(a) > 1 {
-				a = a[:1]
+			for i := 1; i < len(a); i++ {
+				a[i].Delay = time.Duration(40*scale) * time.Millisecond
+			}
+			if len(a) > 3 {
+				a = a[:3]
 			}
 			return a
 		}))
@@ -247,8 +255,8 @@ func runSocket(c seqCase, scale int) *rp.Fail {
 	started := time.Now()
 	res := api.Invoke(u, api.Case{Call: accepted(c.Call), V: api.Variant{WeekPresent: [7]bool{true, true, true, true, true, true, true}}})
 	elapsed := time.Since(started)
-	if c.Path == 2 && len(c.Datagrams) > 1 {
-		c.Datagrams = c.Datagrams[:1]
+	if c.Path == 2 && len(c.Datagrams) > 3 {
+		c.Datagrams = c.Datagrams[:3] // what was played
 		v = reference(c)
 	}
 	if fail := judge(c, v, res, 0); fail != nil {
@@ -425,6 +433,15 @@ func genSeq(layer string, maxLen int) func(t *rapid.T) seqCase {
 				cl = "valid"
 			}
 			c.Datagrams = append(c.Datagrams, mkDatagram(t, cl, c.Call))
+			if cl == "short" && c.Path == 2 && rapid.Bool().Draw(t, "tcp.split") {
+				// a valid reply split over two writes: the first (short) write must still make the call fail
+				whole := mkDatagram(t, "valid", c.Call)
+				cut := rapid.IntRange(1, 63).Draw(t, "tcp.cut")
+				c.Datagrams[len(c.Datagrams)-1] = whole[:cut]
+				c.Datagrams = append(c.Datagrams, whole[cut:])
+				c.Via = append(c.Via, false)
+				i++
+			}
 			via := false
 			if layer == "socket" && c.Path == 0 && (cl == "short" || cl == "long" || cl == "other-serial" || cl == "serial-0") {
 				via = rapid.IntRange(0, 2).Draw(t, "via") == 0
